@@ -167,7 +167,7 @@ def run_job(job):
                 with open(dpath, "w") as fh:
                     fh.write("\n".join(str(x) for x in sc["decisions"]) + "\n")
                 plan = Plan(sc["pseed"], "replay", faults=[f"cmd@{sc['trigger']}@{cmd}"],
-                            decisions_in=dpath)
+                            decisions_in=dpath, base_strategy=sc["strategy"])
             argv = ["-o", "out"] + inputs + [f"--threads={sc['threads']}"]
             if not sc["fork"]:
                 argv.append("--no-fork")
